@@ -24,6 +24,7 @@ mod io;
 mod keepalive;
 mod backpressure;
 mod churn;
+mod rex;
 mod remotelinks;
 mod localproc;
 mod md5;
@@ -81,6 +82,7 @@ fn main() {
         "keepalive-run" => keepalive::run(rest),
         "backpressure-run" => backpressure::run(rest),
         "churn-run" => churn::run(rest),
+        "rex-run" => rex::run(rest),
         "remotelinks-run" => remotelinks::run(rest),
         "behaviours-run" => behaviours::run(rest),
         "nodeconn-run" => nodeconn::run(rest),
